@@ -62,6 +62,8 @@ def roundtrip_problem(c, d, out):
         if empty(v):
             continue
         got, ok = get_path(out, tuple(opath))
+        if c.minsized and not ok and path and isinstance(path[-1], int) and isinstance(get_path(out, tuple(opath[:-1]))[0], str):
+            continue          # recorded finding C02-uint8-array-base64: []uint8 marshals as a base64 string
         if not (ok and json_eq(v, got)):
             return "value %s at %s came back as %s" % (json.dumps(v), "/".join(map(str, path)), json.dumps(got) if ok else "missing")
     return None
@@ -71,8 +73,13 @@ def run(ctx):
     ctx.proof_step(PROPS_FILE)
     n = 60 if ctx.tier == "quick" else 800
     from props import c05
-    sysm = c05.e2e_fractional() + c05.e2e_systematic(ctx)[::11]
+    sysm = c05.e2e_fractional() + c05.e2e_edges()[::2] + c05.e2e_systematic(ctx)[::11]
     cases = build_cases(ctx, len(sysm) + n, None, CLASSES, "c02x", docs_per=3 if ctx.tier == "quick" else 5, max_docs=60, extra_schemas=sysm)
+    ints = [r for r in sysm if '"integer"' in json.dumps(r)]
+    ms = build_cases(ctx, len(ints), None, CLASSES, "c02m", docs_per=3, max_docs=60, extra_schemas=ints, minsized=True)
+    for c in ms:
+        c.fam = "min-sized/" + c.fam
+    cases = cases + ms
     run_cases(ctx, cases, "c02")
     nv = evaluate(ctx, cases, CLASSES, {k: "valid" for k in CLASSES}, "valid documents")
     for c in cases:
